@@ -462,7 +462,15 @@ class SimLock:
         self.owner = None
 
     def acquire(self, blocking=True, timeout=-1):
-        self.k.block(lambda: self.owner is None, None, label='lock')
+        if not blocking:
+            if self.owner is not None:
+                return False
+        else:
+            ok = self.k.block(lambda: self.owner is None,
+                              None if timeout is None or timeout < 0
+                              else timeout, label='lock')
+            if not ok:
+                return False
         self.owner = self.k.cur
         return True
 
@@ -470,7 +478,56 @@ class SimLock:
         self.owner = None
         self.k.yield_point('unlock')
 
+    def locked(self):
+        return self.owner is not None
+
     __enter__ = acquire
 
     def __exit__(self, *a):
         self.release()
+
+
+class SimRLock(SimLock):
+    def __init__(self, kernel):
+        super().__init__(kernel)
+        self.depth = 0
+
+    def acquire(self, blocking=True, timeout=-1):
+        if self.owner is not None and self.owner is self.k.cur:
+            self.depth += 1
+            return True
+        if SimLock.acquire(self, blocking, timeout):
+            self.depth = 1
+            return True
+        return False
+
+    def release(self):
+        self.depth -= 1
+        if self.depth <= 0:
+            SimLock.release(self)
+
+    __enter__ = acquire
+
+
+class ThreadingShim:
+    """Stands in for the `threading` module inside the code under test: a
+    lock, condition-free event or re-entrant lock created there blocks
+    through the kernel, so that a deadlock shows as threads that never
+    finish (a violation) instead of hanging the simulator."""
+
+    def __init__(self, kernel):
+        import threading as _t
+        self._k = kernel
+        self._t = _t
+
+    def Lock(self):
+        return SimLock(self._k)
+
+    def RLock(self):
+        return SimRLock(self._k)
+
+    def Event(self):
+        return SimEvent(self._k)
+
+    def __getattr__(self, name):
+        return getattr(self._t, name)
